@@ -32,6 +32,8 @@ PID = "C02"
 RULES = {
     "fixes.remove_dead_ifs": 0,
     "fixes.remove_redundant_else": 1,
+    "fixes.fix_if_return": 2,
+    "fixes.fix_if_assign": 3,
 }
 
 B = lambda b: ("B", b)  # noqa
@@ -120,6 +122,51 @@ def fam_generic(tier):
     return [p for p in out if M.well_formed(p)]
 
 
+def contexts(core_stmts, tail=None):
+    """put a statement sequence at top level, inside if / elif / else / loops (depth <= 2 around it)"""
+    tail = tail or []
+    c = list(core_stmts)
+    yield c + tail
+    yield [EV1] + c + tail
+    yield [("if", C3, c, [])] + tail
+    yield [("if", C3, [EV1], c)] + tail                      # else (elif when c is a single if)
+    yield [("if", C3, [EV1], [EV2] + c)] + tail
+    yield [("if", C3, [RET], [("if", C2, [EV1], c)])] + tail   # under an elif
+    yield [("for", IK2, c, [])] + tail
+    yield [("while", C3, [EV1] + c, c)] + tail
+    yield [("for", IU1, [("if", C3, c, [EV1])], [])] + tail
+
+
+def fam_if_return_assign(tier):
+    out = []
+    consts = [B(True), B(False), ("O", True, 0), ("O", False, 0)]
+    tests = [C1, C2, ("N", C1), KT, KF, ("N", ("N", C2))]
+    for t in tests:
+        for a in consts:
+            for b in consts:
+                if tier == "quick" and a[0] == "O" and b[0] == "O":
+                    continue
+                site_r = [("if", t, [("ret", ("V", a))], []), ("ret", ("V", b))]
+                site_a = [("if", t, [("asg", 0, ("V", a))], [("asg", 0, ("V", b))]), EV2]
+                for c in contexts(site_r, [EV3]):
+                    out.append(c)
+                for c in contexts(site_a, [RETV]):
+                    out.append(c)
+        # near misses
+        out.append([("if", t, [("ret", ("V", B(True)))], [EV1]), ("ret", ("V", B(False)))])
+        out.append([("if", t, [EV1, ("ret", ("V", B(True)))], []), ("ret", ("V", B(False)))])
+        out.append([("if", t, [("asg", 0, ("V", B(True)))], [("asg", 1, ("V", B(False)))]), RETV])
+        out.append([("if", t, [("asg", 0, ("V", B(True)))], []), RETV])
+        out.append([("if", t, [("ret", ("V", B(True)))], []), EV1, ("ret", ("V", B(False)))])
+    return [p for p in out if M.well_formed(p)]
+
+
+# rules whose sites are ordinary if/while shapes: the generic family is used in full also in the quick tier
+GENERIC_SENSITIVE = {"fixes.remove_dead_ifs", "fixes.remove_redundant_else", "fixes.swap_if_else",
+                     "fixes.delete_unreachable_code"}
+FAMILIES = {"fixes.fix_if_return": fam_if_return_assign, "fixes.fix_if_assign": fam_if_return_assign}
+
+
 def rand_test(rnd, known=0.3):
     r = rnd.random()
     if r < known:
@@ -139,7 +186,21 @@ def rand_rexpr(rnd):
 
 
 def rand_block(rnd, depth, in_loop, lo=1, hi=3):
-    return [rand_stmt(rnd, depth, in_loop) for _ in range(rnd.randint(lo, hi))]
+    b = []
+    for _ in range(rnd.randint(lo, hi)):
+        r = rnd.random()
+        if r < 0.06:      # fix_if_return shapes
+            v = rnd.random() < 0.5
+            w = (not v) if rnd.random() < 0.85 else v
+            b += [("if", rand_test(rnd), [("ret", ("V", B(v)))], []), ("ret", ("V", B(w)))]
+        elif r < 0.12:    # fix_if_assign shapes
+            v = rnd.random() < 0.5
+            x = rnd.randrange(M.NV)
+            y = x if rnd.random() < 0.85 else rnd.randrange(M.NV)
+            b.append(("if", rand_test(rnd), [("asg", x, ("V", B(v)))], [("asg", y, ("V", B(not v)))]))
+        else:
+            b.append(rand_stmt(rnd, depth, in_loop))
+    return b
 
 
 def rand_stmt(rnd, depth, in_loop):
@@ -319,7 +380,38 @@ def oracle_differs(p, q, max_draws=3, vals=(B(True), B(False), ("O", True, 0))):
 
 # structural predicates of the known findings of the modelled rules (sig= field), on a MiniPy case
 # case = dict(rule, program, result, diff)
-SIGS: dict = {}
+def blocks_of(p):
+    yield p
+    for s in M.walk(p):
+        if s[0] in ("if", "while", "for"):
+            yield s[2]
+            yield s[3]
+
+
+def _bare_test(t):
+    return t[0] == "U"       # a call used as a condition: its value need not be a bool
+
+
+def _sig_truthiness_value_return(case):
+    """`if c: return True / return False` with a condition that is not syntactically boolean, and the behaviours
+    differ only when an opaque condition returns a non-bool (no difference under boolean-only scripts)"""
+    p = case["program"]
+    site = any(b[i][0] == "if" and _bare_test(b[i][1]) and b[i][2] == [("ret", ("V", B(True)))] and not b[i][3]
+               and b[i + 1] == ("ret", ("V", B(False)))
+               for b in blocks_of(p) for i in range(len(b) - 1))
+    return site and oracle_differs(p, case["result"], 4, vals=(B(True), B(False))) is None
+
+
+def _sig_truthiness_value_assign(case):
+    p = case["program"]
+    site = any(s[0] == "if" and _bare_test(s[1]) and len(s[2]) == 1 and len(s[3]) == 1
+               and s[2][0][0] == "asg" and s[3][0][0] == "asg" and s[2][0][1] == s[3][0][1]
+               and s[2][0][2] == ("V", B(True)) and s[3][0][2] == ("V", B(False)) for s in M.walk(p))
+    return site and oracle_differs(p, case["result"], 4, vals=(B(True), B(False))) is None
+
+
+SIGS: dict = {"truthiness_value_return": _sig_truthiness_value_return,
+              "truthiness_value_assign": _sig_truthiness_value_assign}
 
 
 def match_finding(kf, case):
@@ -382,7 +474,10 @@ def check(run: common.Run):
     fired = Counter()
     for name, k in RULES.items():
         dom = DOMAIN.get(name, lambda p: True)
-        for p in exh + rnds:
+        special = FAMILIES[name](run.tier) if name in FAMILIES else []
+        hist[f"special-family:{name}"] = len(special)
+        gen = exh if (not quick or name in GENERIC_SENSITIVE) else exh[::4]
+        for p in special + gen + rnds:
             if not dom(p):
                 hist[f"outside-domain:{name}"] += 1
                 continue
@@ -394,8 +489,9 @@ def check(run: common.Run):
             if q != p:
                 fired[name] += 1
                 hist[f"fired:{name}"] += 1
-    files_rule = write_cases(wd, "rule", rule_items, lambda c: f"({c[0]}, {M.g_prog(c[2])}, {M.g_prog(c[5])})",
-                             "nat * list stmt * list stmt", "rule_case_ok")
+    files_rule = write_cases(wd, "rule", rule_items,
+                             lambda c: f"({c[0]}, {M.g_prog(c[2])}, " + ("None" if c[5] == c[2] else f"Some {M.g_prog(c[5])}") + ")",
+                             "nat * list stmt * option (list stmt)", "rule_case_ok")
     timing["rules_gen"] = round(time.time() - t0, 1)
 
     sem_fail, e1 = eval_case_files(files)
